@@ -1,4 +1,5 @@
 import Bpmn.Lemmas.Xml
+import Bpmn.Lemmas.XmlRoundTrip
 /-!
 # C15 — XML round trip
 
@@ -15,15 +16,51 @@ def PrefixesDeclared (S : Schema) : Prop := prefixesDeclaredB S = true
 def XsiDeclared (S : Schema) : Prop := xsiDeclaredB S = true
 def NoValueExprFields (S : Schema) : Prop := valueExprFields S = []
 
-/-- the full statement of C15 on the model, kept visible. (a) round trip; (b) serialising leaves
-the model alone up to text trimming, and is a function of the model only; (c) the generated
-`FindBy` traversals visit every place an id-carrying element can be. -/
+/-- the decidable table check the tree-level theorem needs (`Lemmas/XmlRoundTrip`): per type the
+element and attribute tags are pairwise distinguishable, every element is written with a head (a
+prefix declared on the root, or a default-namespace declaration) that the decoder resolves to the
+namespace of the field's tag, no value-typed `AnExpression` field falls under the default
+encoding rules, marshal and unmarshal defaults agree; the `xsi` prefix is declared on the root;
+the formal / informal / wrapper / root types are distinct as needed and the informal type value
+is not mistaken for the formal one -/
+def RtTable (S : Schema) : Prop := rtTableB S = true
+
+/-- the full statement of C15 on the model, kept visible. (a) round trip of every well-typed
+definitions tree (any size, any depth); (b) serialising leaves the model alone up to text
+trimming, and is a function of the model only; (c) the generated `FindBy` traversals visit every
+place an id-carrying element can be. -/
 def C15_statement (S : Schema) : Prop :=
-  (∀ (tr : String → String) (n : Node), WellTyped S n →
-      parse S (marshal S tr n) = some (norm S tr [] n)) ∧
+  (∀ (tr : String → String) (n : Node), WellTyped S n → n.ty = S.rootTy →
+      parse S (marshal S tr n) = some (normRoot S tr n)) ∧
   (∀ (tr : String → String) (n : Node), (∀ s, tr (tr s) = tr s) →
-      marshal S tr (stored S tr n) = marshal S tr n ∧ stored S tr (stored S tr n) = stored S tr n) ∧
+      skel (stored S tr n) = skel n ∧ stored S tr (stored S tr n) = stored S tr n) ∧
   findByCoversB S = true
+
+/-- **Tree-level round trip (positive side of the dichotomy on the table).** For EVERY schema table
+that passes the check, every trimming function and every well-typed definitions tree of any size
+and depth: parsing what was marshalled returns the tree, with the text of elements `PreMarshal`
+runs on trimmed and the olive `Item` defaults applied — nothing else changes. -/
+theorem roundtrip_general (S : Schema) (h : RtTable S) (tr : String → String) (n : Node)
+    (hwt : WellTyped S n) (hroot : n.ty = S.rootTy) :
+    parse S (marshal S tr n) = some (normRoot S tr n) :=
+  roundtrip S tr h n hwt hroot
+
+/-- what the round trip may change is text and defaulted attributes only: the result has the shape
+of the original (same element types, same number of attributes and children everywhere) … -/
+theorem roundtrip_keeps_shape (S : Schema) (tr : String → String) (n : Node) (hwt : WellTyped S n) :
+    shape (normRoot S tr n) = shape n :=
+  norm_shape S tr n _ hwt
+
+/-- … and with nothing to trim (`tr = id`) on a table without defaults it is the tree itself -/
+theorem roundtrip_identity (S : Schema) (h : RtTable S) (hd : ∀ ty, unmarshalDefaults S ty = [])
+    (n : Node) (hwt : WellTyped S n) (hroot : n.ty = S.rootTy) :
+    parse S (marshal S id n) = some n :=
+  roundtrip_exact S h hd n hwt hroot
+
+/-- **C15 on the model**: for every table that passes the two decidable checks. -/
+theorem C15_holds (S : Schema) (h : RtTable S) (hf : findByCoversB S = true) : C15_statement S :=
+  ⟨fun tr n hwt hroot => roundtrip S tr h n hwt hroot,
+   fun tr n hid => ⟨stored_skel S tr n, stored_idem S tr hid n⟩, hf⟩
 
 /-! ## One-level theorems, for every table -/
 
@@ -104,19 +141,25 @@ formal condition comes back as an informal one: the round trip does not preserve
 theorem C15_counterexample_xsi :
     xsiDeclaredB (mini false) = false ∧ wfB (mini false) = true ∧ prefixesDeclaredB (mini false) = true ∧
     parse (mini false) (marshal (mini false) id miniDoc) = some miniDocInformal ∧
-    norm (mini false) id [] miniDoc = miniDoc ∧ miniDocInformal ≠ miniDoc := by
+    normRoot (mini false) id miniDoc = miniDoc ∧ miniDocInformal ≠ miniDoc := by
   refine ⟨by decide, by decide, by decide, by rfl, by rfl, by simp [miniDocInformal, miniDoc]⟩
+
+/-- the table check separates the two miniature tables: it fails exactly because of the undeclared
+prefix, and the hypotheses of `roundtrip_general` are met by the repaired one (non-vacuity) -/
+theorem mini_table_check : rtTableB (mini false) = false ∧ rtTableB (mini true) = true ∧
+    WellTyped (mini true) miniDoc ∧ miniDoc.ty = (mini true).rootTy := by
+  refine ⟨by decide, by decide, by unfold WellTyped; decide, rfl⟩
 
 /-- with the prefix declared the same document round-trips -/
 theorem mini_roundtrip_declared :
     xsiDeclaredB (mini true) = true ∧
-    parse (mini true) (marshal (mini true) id miniDoc) = some (norm (mini true) id [] miniDoc) := by
+    parse (mini true) (marshal (mini true) id miniDoc) = some (normRoot (mini true) id miniDoc) := by
   refine ⟨by decide, by rfl⟩
 
 /-- informal expressions round-trip either way (the `_partial` side of the dichotomy on the
 miniature table) -/
 theorem mini_roundtrip_informal_partial (xsi : Bool) :
-    parse (mini xsi) (marshal (mini xsi) id miniDocInformal) = some (norm (mini xsi) id [] miniDocInformal) := by
+    parse (mini xsi) (marshal (mini xsi) id miniDocInformal) = some (normRoot (mini xsi) id miniDocInformal) := by
   cases xsi <;> rfl
 
 /-- marshal is a function of the model, and storing the trimmed text back changes nothing a
@@ -169,10 +212,14 @@ theorem C15_counterexample_value_field :
       some (.mk 0 [some "D"] [[.mk 1 [some "a1"] [[.mk 4 [none] [] ""]] ""]] "") := by
   refine ⟨by decide, by decide, by decide, by rfl⟩
 
+/-- the table check also rejects the value-typed expression field under a pointer receiver -/
+theorem mini2_table_check : rtTableB (mini2 false) = false ∧ rtTableB (mini2 true) = true := by
+  refine ⟨by decide, by decide⟩
+
 /-- with a value receiver the same document round-trips -/
 theorem mini2_roundtrip_by_value :
     valueExprFields (mini2 true) = [] ∧
-    parse (mini2 true) (marshal (mini2 true) id miniDoc2) = some (norm (mini2 true) id [] miniDoc2) := by
+    parse (mini2 true) (marshal (mini2 true) id miniDoc2) = some (normRoot (mini2 true) id miniDoc2) := by
   refine ⟨by decide, by rfl⟩
 
 example : WellTyped (mini2 false) miniDoc2 := by unfold WellTyped; decide
